@@ -28,6 +28,10 @@ type Syncers struct {
 	NonFinalSyncTimes  []time.Time
 	SyncStartCancelled []bool
 	Retries            int // retry timers fired
+	// SyncCompletedWithoutSuccess: set by the source monitor (see syn()).
+	SyncCompletedWithoutSuccess string
+	syncOKAtStart               int
+	syncAnnounced               bool
 	EpochTimers        int // epoch timers fired
 }
 
@@ -43,6 +47,20 @@ func (w *World) syn() *Syncers {
 			if name == "SyncStarting" {
 				w.Sy.NonFinalSyncTimes = append(w.Sy.NonFinalSyncTimes, w.St.Clock.Now())
 				w.Sy.SyncStartCancelled = append(w.Sy.SyncStartCancelled, w.Sy.Cancelled)
+			}
+			// A sync is reported complete to the block list (which then
+			// exposes the epochs and write offsets it covers to the state
+			// file) only after a data sync that started after the
+			// announcement has SUCCEEDED: failures are retried until then.
+			switch name {
+			case "SyncStarting", "SyncStartingFinal":
+				w.Sy.syncOKAtStart = w.St.DataSyncOK
+				w.Sy.syncAnnounced = true
+			case "SyncCompleted":
+				if w.Sy.syncAnnounced && w.St.DataSyncOK == w.Sy.syncOKAtStart && w.Sy.SyncCompletedWithoutSuccess == "" {
+					w.Sy.SyncCompletedWithoutSuccess = fmt.Sprintf("NotifySyncCompleted was called although no data sync has succeeded since the matching NotifySyncStarting (data sync calls so far: %d, successful: %d): the state file will describe data that no completed sync covers", w.St.DataSyncs, w.St.DataSyncOK)
+				}
+				w.Sy.syncAnnounced = false
 			}
 		}
 	}
@@ -76,6 +94,9 @@ func (w *World) ReleaseWakeupPending() bool {
 
 func (w *World) syncerEvent(who string, th *sim.Thread, ev sim.Event) {
 	sy := w.syn()
+	if sy.SyncCompletedWithoutSuccess != "" {
+		w.fatalf("monitor violation: %s", sy.SyncCompletedWithoutSuccess)
+	}
 	switch ev.Kind {
 	case "panic":
 		sy.Panics = append(sy.Panics, fmt.Sprintf("%s: %v", who, ev.Panic))
